@@ -393,6 +393,22 @@ func (e *c11Env) second(done <-chan struct{}, cancel func(), responder string, a
 		} else if responder != "-" {
 			stop := e.stopOn(done)
 			from := c07Peer(responder)
+			if bully {
+				// this relayer follows the re-elected coordinator: BEFORE that one speaks, the other peers of the scenario —
+				// the excluded culprit among them — send their own initiate and start messages; all must be ignored
+				early, _ := message.MarshalStartMessage([]byte("px"))
+				for _, p := range arrivals {
+					if p == from || p == e.self {
+						continue
+					}
+					if r := cm.deliver(e.sid, comm.TssInitiateMsg, p, []byte{}, stop); r != "ok" {
+						break
+					}
+					if r := cm.deliver(e.sid, comm.TssStartMsg, p, early, stop); r != "ok" {
+						break
+					}
+				}
+			}
 			params := []byte("p1")
 			if e.startParams != nil {
 				params = e.startParams
